@@ -103,6 +103,9 @@ MUTANTS = [
      "            self.writePackedDataRecord(h, data, new_tpos)",
      "                data = None\n\n"
      "            self.writePackedDataRecord(h, data, new_tpos)"),
+    ('C05', 'adapter-forgets-oids-before-finish-is-accepted', MV,
+     "        modified = self._modified\n\n        def invalidate_finish(tid):",
+     "        modified = self._modified\n        self._modified = None\n\n        def invalidate_finish(tid):"),
     ('C08', 'read-handle-marked-returned-before-it-is-pooled', FS,
      "            self._files.append(f)\n            self._out.remove(f)\n",
      "            self._out.remove(f)\n            self._files.append(f)\n"),
